@@ -31,8 +31,9 @@ from simcore import HarnessError, derive_seed, mix64, GAMMA, MASK64  # noqa: E40
 PROP = "C20"
 VERIF = os.path.dirname(HERE)
 KNOWN = os.environ.get("VERIF_KNOWN_FINDINGS") or os.path.join(VERIF, "known_findings.jsonl")
-REPLAYS = os.path.join(VERIF, "replays")
-EVIDENCE = os.path.join(VERIF, "evidence", "C20.json")
+OUTDIR = os.environ.get("VERIF_DIR") or VERIF   # evaluation of seeded changes writes elsewhere
+REPLAYS = os.path.join(OUTDIR, "replays")
+EVIDENCE = os.path.join(OUTDIR, "evidence", "C20.json")
 QUICK_RUNS = 12000
 QUICK_EXPLORE_CAP_S = 30.0
 RECHECK_EVERY = 50
